@@ -419,6 +419,49 @@ theorem orThenReverse_eq (a b : Bit1024) : orThenReverse1024 a b = reverse1024 (
   intro j hj
   rw [orThenReverse1024_mem a b j hj, reverse1024_mem _ j hj, or1024_mem]
 
+/-! ### derived laws: the operations form the Boolean algebra of subsets of `[0, 1024)` -/
+
+theorem and_comm1024 (a b : Bit1024) : and1024 a b = and1024 b a :=
+  bitmap_ext _ _ fun j _ => by rw [and1024_mem, and1024_mem, Bool.and_comm]
+
+theorem or_comm1024 (a b : Bit1024) : or1024 a b = or1024 b a :=
+  bitmap_ext _ _ fun j _ => by rw [or1024_mem, or1024_mem, Bool.or_comm]
+
+theorem and_assoc1024 (a b c : Bit1024) : and1024 (and1024 a b) c = and1024 a (and1024 b c) :=
+  bitmap_ext _ _ fun j _ => by simp only [and1024_mem, Bool.and_assoc]
+
+theorem or_assoc1024 (a b c : Bit1024) : or1024 (or1024 a b) c = or1024 a (or1024 b c) :=
+  bitmap_ext _ _ fun j _ => by simp only [or1024_mem, Bool.or_assoc]
+
+theorem and_self1024 (a : Bit1024) : and1024 a a = a :=
+  bitmap_ext _ _ fun j _ => by rw [and1024_mem, Bool.and_self]
+
+theorem or_self1024 (a : Bit1024) : or1024 a a = a :=
+  bitmap_ext _ _ fun j _ => by rw [or1024_mem, Bool.or_self]
+
+/-- absorption -/
+theorem and_or_absorb1024 (a b : Bit1024) : and1024 a (or1024 a b) = a :=
+  bitmap_ext _ _ fun j _ => by rw [and1024_mem, or1024_mem]; cases mem1024 a j <;> cases mem1024 b j <;> rfl
+
+/-- distributivity -/
+theorem and_or_distrib1024 (a b c : Bit1024) : and1024 a (or1024 b c) = or1024 (and1024 a b) (and1024 a c) :=
+  bitmap_ext _ _ fun j _ => by
+    simp only [and1024_mem, or1024_mem]; cases mem1024 a j <;> cases mem1024 b j <;> cases mem1024 c j <;> rfl
+
+/-- De Morgan: the complement of a union is the intersection of the complements (and `OrThenReverse` is that set) -/
+theorem de_morgan1024 (a b : Bit1024) :
+    reverse1024 (or1024 a b) = and1024 (reverse1024 a) (reverse1024 b) ∧
+    orThenReverse1024 a b = and1024 (reverse1024 a) (reverse1024 b) := by
+  have h : reverse1024 (or1024 a b) = and1024 (reverse1024 a) (reverse1024 b) :=
+    bitmap_ext _ _ fun j hj => by
+      rw [reverse1024_mem _ j hj, or1024_mem, and1024_mem, reverse1024_mem _ j hj, reverse1024_mem _ j hj]
+      cases mem1024 a j <;> cases mem1024 b j <;> rfl
+  exact ⟨h, by rw [orThenReverse_eq, h]⟩
+
+/-- a set and its complement are disjoint and together everything: `a ∩ ¬a` has no member, `a ∪ ¬a` every index -/
+theorem complement_laws1024 (a : Bit1024) (j : Nat) (hj : j < 1024) :
+    mem1024 (and1024 a (reverse1024 a)) j = false ∧ mem1024 (or1024 a (reverse1024 a)) j = true := by
+  rw [and1024_mem, or1024_mem, reverse1024_mem _ j hj]; cases mem1024 a j <;> exact ⟨rfl, rfl⟩
 /-- complement twice, and De Morgan, as corollaries of the membership laws -/
 theorem reverse_reverse (a : Bit1024) : reverse1024 (reverse1024 a) = a := by
   apply ext1024
